@@ -144,3 +144,94 @@ Theorem c05_judge_accepts_model : forall ps text, Forall is_bytes ps -> is_bytes
   c05_ok ops text (c05_model ops text) = true.
 Proof. exact judge_accepts_model. Qed.
 Print Assumptions c05_judge_accepts_model.
+
+(* ---------------------------------------------------------------------------------------------------------------
+   EMISSION ORDER (list-level statements; specification side in Model/TrieOrder.v).
+
+   find / FindAll.  [occ_before a b]: (start, end) a has the smaller end, or the same end and the smaller start (= the
+   longer pattern: the fail chain reports the longest suffix first).  Model.Trie.occs is strictly sorted that way, and it
+   is the only list with its elements that is. *)
+From Coq Require Import Sorted.
+From V Require Import Model.TrieOrder Proofs.TrieOrderFind Proofs.TrieOrderPrefix Proofs.TrieOrderTop.
+
+Theorem c05_occs_emission_order : forall aligned ps text,
+  StronglySorted occ_before (occs aligned ps text) /\
+  (forall l, StronglySorted occ_before l -> (forall se, In se l <-> In se (occs aligned ps text)) -> l = occs aligned ps text).
+Proof. exact occs_emission_order. Qed.
+Print Assumptions c05_occs_emission_order.
+
+(* the scope list of find IS the specification's occurrence list (as integers), element by element; FindAll's strings are
+   the specification's strings in the same order *)
+Theorem c05_find_all_order : forall ps text T, Forall is_bytes ps -> is_bytes text -> built ps T ->
+  find T text = Ok (map scope_of (occs true ps text)) /\
+  find_all T text = Ok (spec_find_all true ps text).
+Proof. exact find_order. Qed.
+Print Assumptions c05_find_all_order.
+
+(* PrefixSearch.  [dfs_before x y] on rune words (values as decodeRune assigns them): x is a proper prefix of y (a node is
+   reported before its descendants), or at the first position where they differ x has the LARGER rune (the last child is
+   popped first). *)
+Theorem c05_dfs_order_meaning : forall x y, dfs_before x y = true <->
+  (exists e, e <> [] /\ y = x ++ e) \/
+  (exists q c d x' y', x = q ++ c :: x' /\ y = q ++ d :: y' /\ (d < c)%Z).
+Proof. exact dfs_before_iff. Qed.
+Print Assumptions c05_dfs_order_meaning.
+
+(* the executable specification list spec_prefix_ordered (insertion sort of the prefix set by pat_before p q =
+   dfs_before (runes_of p) (runes_of q)) is strictly sorted, has exactly the elements of the prefix set, and is the only
+   such list *)
+Theorem c05_spec_prefix_ordered_meaning : forall aligned ps key, Forall is_bytes ps ->
+  StronglySorted (fun p q => pat_before p q = true) (spec_prefix_ordered aligned ps key) /\
+  (forall y, In y (spec_prefix_ordered aligned ps key) <-> In y (spec_prefix aligned ps key)) /\
+  (forall l, StronglySorted (fun p q => pat_before p q = true) l -> (forall y, In y l <-> In y (spec_prefix aligned ps key)) ->
+             l = spec_prefix_ordered aligned ps key).
+Proof. exact spec_prefix_ordered_meaning. Qed.
+Print Assumptions c05_spec_prefix_ordered_meaning.
+
+(* PrefixSearch(key) returns that list, element by element: the pre-order of the subtree below the key's node with the
+   children taken last-to-first *)
+Theorem c05_prefix_search_order : forall ps key T, Forall is_bytes ps -> is_bytes key -> built ps T ->
+  prefix_search T key = Ok (spec_prefix_ordered true ps key).
+Proof. exact prefix_search_order. Qed.
+Print Assumptions c05_prefix_search_order.
+
+(* in the reading the run's judge selects: Match, FindAll and PrefixSearch of the model EQUAL the specification's answers
+   as lists (c05_model_satisfies_judge gives multiset equality, which is all the property asks of an implementation) *)
+Theorem c05_model_equals_ordered_spec : forall ps text T, Forall is_bytes ps -> is_bytes text -> built ps T ->
+  match_ T text = Ok (spec_match (mode_of ps) ps text) /\
+  find_all T text = Ok (spec_find_all (mode_of ps) ps text) /\
+  prefix_search T text = Ok (spec_prefix_ordered (negb (valid_utf8 text)) ps text).
+Proof. exact model_equals_ordered_spec. Qed.
+Print Assumptions c05_model_equals_ordered_spec.
+
+(* ---------------------------------------------------------------------------------------------------------------
+   REBUILDS.  For EVERY operation sequence (Insert p | BuildFailureLinks in any order, from the empty trie):
+   BuildFailureLinks never exhausts its fuel, and when the sequence ends with a build the table is THE table
+   [built (inserted ops)]: inserting all patterns so far into the empty trie and building once.  So every theorem above
+   with the premise [built ps T] speaks about the trie of every such sequence (stale fail links left by an earlier build
+   are never read: Proofs/TrieBuild.v needs only a nil root link). *)
+From V Require Import Proofs.TrieOrderRebuild.
+
+Theorem c05_rebuild_is_one_shot_build : forall ops,
+  exists T, run_ops empty_trie ops = Some T /\ (canonical ops = true -> built (inserted ops) T).
+Proof. exact run_ops_canonical. Qed.
+Print Assumptions c05_rebuild_is_one_shot_build.
+
+(* spelled out: the five queries after any sequence that ends with a build *)
+Theorem c05_queries_after_rebuilds : forall ops text T, Forall is_bytes (inserted ops) -> is_bytes text ->
+  canonical ops = true -> run_ops empty_trie ops = Some T ->
+  let ps := inserted ops in
+  match_ T text = Ok (spec_match (mode_of ps) ps text) /\
+  find T text = Ok (map scope_of (occs true ps text)) /\
+  find_all T text = Ok (spec_find_all (mode_of ps) ps text) /\
+  prefix_search T text = Ok (spec_prefix_ordered (negb (valid_utf8 text)) ps text) /\
+  (exists l, fuzzy_search T text = Ok l /\ forall y, In y l -> In y ps /\ y <> []).
+Proof. exact queries_after_rebuilds. Qed.
+Print Assumptions c05_queries_after_rebuilds.
+
+(* the run's judge (`entry 2`) answers 1 on the model's own output (`entry 0`) for EVERY decoded case, rebuilds included
+   (a case whose last operation is not a build is not judged: c05_ok is true there by definition) *)
+Theorem c05_judge_accepts_model_all_sequences : forall ops text, Forall is_bytes (inserted ops) -> is_bytes text ->
+  c05_ok ops text (c05_model ops text) = true.
+Proof. exact judge_accepts_model_ops. Qed.
+Print Assumptions c05_judge_accepts_model_all_sequences.
